@@ -206,7 +206,10 @@ class C29(Prop):
                   "the _create_list_merger chain and CWLEmptyScatterConditionalStep compute the specification's "
                   "merge_nested / merge_flattened / pickValue / empty-scatter values on stated domains (several only "
                   "`_partial`), five `_refuted` theorems give witnesses where the faithful operator model deviates from the "
-                  "specification, and flat_crossproduct = leaves of nested_crossproduct in the specification. The operator "
+                  "specification, flat_crossproduct = leaves of nested_crossproduct in the specification, and "
+                  "C29_scatter_network_dot_partial composes the proved ScatterStep/GatherStep (C01) and DotProductCombinator "
+                  "(C02) models: the dotproduct scatter network computes the specification's array for every input and every "
+                  "arrival order (equal lengths, pure job; flat/nested crossproduct networks not stated). The operator "
                   "models are tied to /repo by running the real operators on generated token trees.")
     LEVEL_NOTE = ("Not proved: the translator (token network, scatter/gather wiring, conditional and default steps), the "
                   "engine, JavaScript evaluation, type checking; C29_scatter_network of the design is not stated. Not "
@@ -233,14 +236,13 @@ class C29(Prop):
                    "StreamFlow runs with the local deployment and an in-memory database (--streamflow-file)",
                    "a disagreement counts only if it is reproduced by a second, sequential run of both runners")
     MAX_WORKERS = 8
-    CASE_TIMEOUT = 300
-    SHARD_TIMEOUT = 3000
+    CASE_TIMEOUT = 2400          # per case, in the worker: a program case is up to four runner invocations of <= 500 s
+    SHARD_TIMEOUT = 12000
+    RUNNER_TIMEOUT = 500         # one runner invocation; a runner that does not finish counts as a failed run
     COQ_SHARD = 200
 
     def gen(self, rng, tier):
-        n = {"quick": 24, "thorough": 400, "extended": 48}[tier]
-        if os.environ.get("C29_NPROG"):          # development aid (mutation experiments on a loaded machine)
-            n = int(os.environ["C29_NPROG"])
+        n = {"quick": 24, "thorough": 240, "extended": 48}[tier]
         nops = {"quick": 320, "thorough": 3000, "extended": 600}[tier]
         progs = [G.gen_program(rng) for _ in range(n)]
         ops = [self._gen_op(rng) for _ in range(nops)]
@@ -270,7 +272,7 @@ class C29(Prop):
         'flat2' = two trailing components in row-major order (gather of depth 2), 'shuffled' = tag.i shuffled."""
         if depth == 0 or rng.random() < 0.45:
             return {"tag": tag, "v": self._gen_scalar(rng)}
-        n = rng.choice([0, 1, 2, 2, 3, 4, 11])
+        n = rng.choice([0, 1, 2, 2, 3, 4, 11, 12, 13])
         if style == "same":
             tags = [tag] * n
         elif style == "flat2":
@@ -314,6 +316,17 @@ class C29(Prop):
         self.repo = os.environ.get("VERIF_REPO", "/repo")
         self.ctx = None
         self.loop = None
+        # import everything the operator cases need now: impl_init is not under the per-case alarm, so a slow
+        # import on a loaded machine cannot be interrupted half-way (which would poison every later case)
+        import streamflow.core.exception  # noqa: F401
+        import streamflow.core.workflow  # noqa: F401
+        import streamflow.cwl.combinator  # noqa: F401
+        import streamflow.cwl.step  # noqa: F401
+        import streamflow.cwl.transformer  # noqa: F401
+        import streamflow.cwl.workflow  # noqa: F401
+        import streamflow.main  # noqa: F401
+        import streamflow.workflow.token  # noqa: F401
+        self._ops_init()
 
     def _ops_init(self):
         import asyncio
@@ -420,14 +433,23 @@ class C29(Prop):
                                   stderr=subprocess.PIPE, text=True)
             env2 = dict(os.environ, TMPDIR=d)
             env2.pop("PYTHONPATH", None)
+            def wait(p):
+                try:
+                    o, e = p.communicate(timeout=self.RUNNER_TIMEOUT)
+                    return p.returncode, o, e
+                except subprocess.TimeoutExpired:
+                    p.kill()
+                    p.communicate()
+                    return 124, "", "ERROR runner did not finish within %d s" % self.RUNNER_TIMEOUT
+
             if not parallel:
-                o1, e1 = p1.communicate()
+                rc1, o1, e1 = wait(p1)
             p2 = subprocess.Popen(["/venv/bin/cwltool", "--no-container", "--disable-js-validation", "--eval-timeout",
                                    "900", "--outdir", "o-ref", "wf.cwl", "job.json"],
                                   cwd=d, env=env2, stdout=subprocess.PIPE, stderr=subprocess.PIPE, text=True)
             if parallel:
-                o1, e1 = p1.communicate()
-            o2, e2 = p2.communicate()
+                rc1, o1, e1 = wait(p1)
+            rc2, o2, e2 = wait(p2)
 
             def parse(rc, out):
                 if rc != 0:
@@ -437,7 +459,7 @@ class C29(Prop):
                 except ValueError:
                     return {"fail": True, "unparsable": out[-200:]}
 
-            obs = {"sf": parse(p1.returncode, o1), "ref": parse(p2.returncode, o2)}
+            obs = {"sf": parse(rc1, o1), "ref": parse(rc2, o2)}
             if "fail" in obs["sf"]:
                 obs["sf"]["why"] = _why(e1)
             if "fail" in obs["ref"]:
